@@ -79,7 +79,7 @@ class EReject(Engine):
 
     def config(self, g, desc):
         if desc['mode'] == 'window':
-            return {'mode': 'window', 'size': desc['size'], 'kind': desc['kind'], 'cls': desc['cls'],
+            return {'mode': 'window', 'size': desc['size'], 'kind': desc['kind'], 'cls': desc['cls'], 'lsb0': g.chance(0.3),
                     'data': bytes(g.int(0, 255) for _ in range(min(desc['size'], 8))).hex()}
         return {'mode': 'write', 'avoid': bool(desc.get('avoid')),
                 'ba': g.bits(g.pick([8, 12, 16, 24, 5, 32, 64, 70])), 'bs': g.bits(g.pick([8, 16, 24, 40, 13])), 'bspos': g.int(0, 8),
@@ -94,6 +94,7 @@ class EReject(Engine):
         self.fs = None
         self.queue = []
         if cfg.get('mode') == 'window':
+            B.options.lsb0 = bool(cfg.get('lsb0'))
             size = int(cfg.get('size', 0))
             head = bytes.fromhex(cfg.get('data', ''))
             self.data = (head * (size // max(len(head), 1) + 1))[:size] if size else b''
